@@ -251,15 +251,15 @@ def _mentions_attr(node, attr):
     return False
 
 
-def fd_column(check, proj, conservation_only=False):
+def fd_column(check, proj, conservation_only=False, only_kinds=None):
     """conservation_only (C01): only what makes the volume-weighted column sums vanish -- every
     column a full difference of two residuals over a scalar; which cell was perturbed, by how much
     and how accurate the quotient is belong to C06 alone"""
     for lin in (0, 1):
-        _fd_column(check, proj, lin, conservation_only)
+        _fd_column(check, proj, lin, conservation_only, only_kinds)
 
 
-def _fd_column(check, proj, lin, conservation_only=False):
+def _fd_column(check, proj, lin, conservation_only=False, only_kinds=None):
     c = proj.cls("integration.implicit")
     fq = proj.resolve(c, "calc_jacobian")
     loc = fq.loc()
@@ -327,7 +327,7 @@ def _fd_column(check, proj, lin, conservation_only=False):
         if idxrepr != repr(Idx(col.name)):
             problems.append(("pert", "perturbed cell index %s is not the loop cell" % idxrepr))
             continue
-        if not (col.a == NEQ and col.b == e):
+        if not (col.a == NEQ and col.b == e and not getattr(col, "sym", "")):
             problems.append(("layout", "column index %r for the perturbation of (cell i, equation %d), expected %d*i+%d" % (col, e, NEQ, e)))
             continue
         if v.eps.comp != e or str(v.eps.rel) != prel or v.eps.per_cell != pcell:
@@ -339,6 +339,8 @@ def _fd_column(check, proj, lin, conservation_only=False):
             floors.add(v.eps.floor)
     if conservation_only:
         problems = [(k, t) for k, t in problems if k not in ("pert", "eps")]
+    if only_kinds is not None:
+        problems = [(k, t) for k, t in problems if k in only_kinds]
     for kind, text in problems:
         check.violation("FD-COLUMN" if kind != "layout" else "LAYOUT-AGREE", q, text, loc, key=kind)
     if not problems:
